@@ -4,3 +4,7 @@ pub mod basic;
 pub mod buf;
 pub mod sfnt;
 pub mod var;
+pub mod fv_font;
+pub mod woff2;
+pub mod glyfgen;
+pub mod ttgen;
